@@ -25,6 +25,13 @@
 (*  growth   a GC cycle never increases the reported storage (16 bytes of   *)
 (*           slack for a header whose first-file number gains a digit;      *)
 (*           relocated records are not on disk before the next flush);      *)
+(*  written  a complete primary GC cycle (no time limit) that starts from a  *)
+(*           flushed store appends nothing to the primary but the records   *)
+(*           it relocates: at the next flush every unmarked record that     *)
+(*           lies behind the end the primary had before the cycle is named  *)
+(*           by a live index entry (the sharp form of "never increases the  *)
+(*           storage except by the records it relocates": a relocation that *)
+(*           is refused and thrown away leaves an unreferenced copy);       *)
 (*  fixed    once two consecutive idle rounds (primary GC, index GC, flush) *)
 (*           leave the directory unchanged, every later round does too and  *)
 (*           no file except the re-created empty freelist is touched.       *)
@@ -33,13 +40,16 @@ EXTENDS TraceLib, Fsck
 BoundDead == 2
 BoundDrain == 3
 
-VARIABLES l, pdead, idead, drain, prevSS, prevSz
+VARIABLES l, pdead, idead, drain, prevSS, prevSz, gcw
+\* gcw: [on, n, sz, clean]: on = only GC cycles ran since the flushed point at which the primary ended in file n at size sz;
+\*      clean = the previous event was a flush or reopen that logged the projection (everything is on disk)
 \* prevSz: [p, i] file number -> size at the previous quiescent point (<<>> when unknown)
 \* pdead / idead: file number -> completed cycles survived while dead
 \* drain: file number -> [left |-> cycles left] for files being drained (threshold 0 phase)
-vars == <<l, pdead, idead, drain, prevSS, prevSz>>
+vars == <<l, pdead, idead, drain, prevSS, prevSz, gcw>>
 
-Init == l = 1 /\ pdead = <<>> /\ idead = <<>> /\ drain = <<>> /\ prevSS = -1 /\ prevSz = [p |-> <<>>, i |-> <<>>] /\ RegInit
+Init == l = 1 /\ pdead = <<>> /\ idead = <<>> /\ drain = <<>> /\ prevSS = -1 /\ prevSz = [p |-> <<>>, i |-> <<>>]
+        /\ gcw = [on |-> FALSE, n |-> 0, sz |-> 0, clean |-> FALSE] /\ RegInit
 
 MaxN(files) == IF Len(files) = 0 THEN -1 ELSE files[Len(files)].n
 FileOfPri(P, off) == off \div P.ph.limit
@@ -67,6 +77,10 @@ EmptiedOldestStays(files, before) ==
   /\ Len(files) > 1
   /\ files[1].size = 0
   /\ files[1].n \in DOMAIN before /\ before[files[1].n] > 0
+MaxDom(f) == CHOOSE x \in DOMAIN f : \A y \in DOMAIN f : y <= x
+\* unmarked primary records behind (n, sz) that no live entry names
+Unreferenced(P, bk, n, sz) ==
+  {y \in PriRecs(P) : ~y.r.del /\ (y.f > n \/ (y.f = n /\ y.r.off >= sz)) /\ \A en \in LiveEntries(P, bk) : en.off # y.r.pos}
 HasSt(e) == "st" \in DOMAIN e /\ "readerr" \notin DOMAIN e.st
 Completed(e) == e.gcerr = "" /\ e.panic = ""
 
@@ -89,6 +103,8 @@ Rules(e) ==
       THEN {"dead-primary-file-not-released-by-time-limited-cycles"} ELSE {})
   \cup (IF e.e \in {"prigc", "idxgc"} /\ "ss" \in DOMAIN e /\ prevSS >= 0 /\ e.sserr = "" /\ e.ss > prevSS + 16
       THEN {"gc-increased-storage"} ELSE {})
+  \cup (IF e.e = "flush" /\ HasSt(e) /\ gcw.on /\ Unreferenced(e.st, e.bk, gcw.n, gcw.sz) # {}
+      THEN {"gc-wrote-unreferenced-record"} ELSE {})
   \cup (IF e.e = "gcfix" /\ e.panic = ""
          /\ (\E i \in 1..(Len(e.rounds) - 1) : e.rounds[i].dg = e.rounds[i + 1].dg
                /\ \E j \in (i + 1)..Len(e.rounds) : e.rounds[j].dg # e.rounds[i].dg \/ (j > i + 1 /\ e.rounds[j].mt # e.rounds[i + 1].mt))
@@ -101,6 +117,11 @@ Next ==
        /\ prevSS' = (IF e.e = "reset" THEN -1 ELSE IF "ss" \in DOMAIN e /\ e.sserr = "" THEN e.ss ELSE prevSS)
        /\ prevSz' = (IF e.e = "reset" THEN [p |-> <<>>, i |-> <<>>]
                      ELSE IF HasSt(e) THEN [p |-> Sizes(e.st.pf), i |-> Sizes(e.st.if)] ELSE prevSz)
+       /\ gcw' = (IF e.e = "prigc" /\ Completed(e) /\ HasSt(e) /\ e.deadline = 0 /\ gcw.clean /\ DOMAIN prevSz.p # {}
+                  THEN [on |-> TRUE, n |-> MaxDom(prevSz.p), sz |-> prevSz.p[MaxDom(prevSz.p)], clean |-> FALSE]
+                  ELSE IF e.e \in {"prigc", "idxgc"} /\ Completed(e) /\ HasSt(e) /\ gcw.on /\ (e.e = "idxgc" \/ e.deadline = 0)
+                  THEN [gcw EXCEPT !.clean = FALSE]
+                  ELSE [on |-> FALSE, n |-> 0, sz |-> 0, clean |-> (e.e \in {"flush", "reopen"} /\ HasSt(e))])
        /\ IF e.e = "reset" \/ e.e = "reopen" \/ e.e = "openwrong"
           THEN pdead' = <<>> /\ idead' = <<>> /\ drain' = <<>>
           ELSE IF ~HasSt(e) THEN UNCHANGED <<pdead, idead, drain>>
